@@ -1,9 +1,9 @@
 SPECIFICATION Spec
 CONSTANTS
-  Deviations <- RealDevs
-  MaxExtra = 2
+  Deviations <- OverrideDev
+  MaxExtra = 0
   AttrModes <- ModesQuick
   VarNone = FALSE
   ReqVersions <- ReqQuick
-INVARIANT SomeInnerNone
+INVARIANT TransMirror
 CHECK_DEADLOCK FALSE
